@@ -32,7 +32,16 @@ pub(crate) struct Parser<'t> {
     /// `steps` is advanced in `nth()` and is reset in `do_bump()`
     /// `steps` records a lookahead.
     steps: Cell<u32>,
+
+    /// Verification hook: number of events pushed since the last consumed token.
+    #[cfg(feature = "oq3_verif")]
+    verif_since_bump: u32,
 }
+
+/// Verification hook: a grammar loop that pushes this many events without consuming a
+/// token is stuck; turn the hang into an attributable panic.
+#[cfg(feature = "oq3_verif")]
+pub const VERIF_NO_PROGRESS_LIMIT: u32 = 2000;
 
 static PARSER_STEP_LIMIT: Limit = Limit::new(15_000_000);
 
@@ -43,6 +52,8 @@ impl<'t> Parser<'t> {
             pos: 0,
             events: Vec::new(),
             steps: Cell::new(0),
+            #[cfg(feature = "oq3_verif")]
+            verif_since_bump: 0,
         }
     }
 
@@ -292,10 +303,22 @@ impl<'t> Parser<'t> {
     fn do_bump(&mut self, kind: SyntaxKind, n_raw_tokens: u8) {
         self.pos += n_raw_tokens as usize;
         self.steps.set(0);
+        #[cfg(feature = "oq3_verif")]
+        {
+            self.verif_since_bump = 0;
+        }
         self.push_event(Event::Token { kind, n_raw_tokens });
     }
 
     fn push_event(&mut self, event: Event) {
+        #[cfg(feature = "oq3_verif")]
+        {
+            self.verif_since_bump += 1;
+            assert!(
+                self.verif_since_bump <= VERIF_NO_PROGRESS_LIMIT,
+                "oq3_verif: no progress"
+            );
+        }
         self.events.push(event);
     }
 }
